@@ -727,6 +727,7 @@ package gorm
 //@ # that is read again afterwards (same handle) gets both back.
 //@ func (*DB).Count
 //@   tags C15 C06
+//@   inline-call (*Statement).AddClause
 //@   assumes handle-well-formed: db.Statement != nil && db.Statement.DB == db && len(db.Statement.scopes) == 0
 //@   let hadOrder = has(db.Statement.Clauses, "ORDER BY")
 //@   let grouped = has(db.Statement.Clauses, "GROUP BY")
